@@ -337,7 +337,43 @@ def r5_sorted_emission(ctx, rep):
                 check_loop("FortranGraph", fn, st)
 
 
+def r6_project_graph_roots(ctx, rep):
+    py = ctx.py
+    ga = py.func("GraphManager.graph_all")
+    pairs = {"usenodes": "usesgraph", "callnodes": "callsgraph"}
+    n = 0
+    for c in py.walk_calls(ga):
+        cn = call_name(c)
+        lst = cn.split(".")[0]
+        if cn.endswith(".append") and lst in pairs and c.args and isinstance(c.args[0], ast.Name):
+            # enclosing conditions up to the for loop
+            p = c
+            tests = []
+            while not isinstance(p, ast.For):
+                child = p
+                p = py.parents[p]
+                if isinstance(p, ast.If) and child in p.body:
+                    tests.append(ast.unparse(p.test))
+            n += 1
+            other = [t for t in tests if pairs[lst] not in t]
+            ok = len(tests) == 1 and not other
+            rep.ob(f"graph_all: {lst}.append({c.args[0].id}) in loop over {ast.unparse(p.iter)[:30]}", ok,
+                   f"guarded only by `{tests[0]}`" if ok else
+                   f"membership in the project-wide {'call' if lst == 'callnodes' else 'use'} graph depends on {tests}: an "
+                   f"entity with calls but no USE (or vice versa) is left out of that graph although its own graphs show "
+                   f"the relation", py.nloc(c))
+    if n < 3:
+        raise AnalysisError("graph_all: root list construction not found")
+    # file dependency edges come from the recursive USE closure (shared with C06.R3)
+    from . import c06
+    c06.r3_dependency_order(ctx, rep)
+    fnode = ast.unparse(py.func("FileNode.__init__"))
+    ok = "for dep in mod.deplist" in fnode and "dep.source_file == obj" in fnode
+    rep.ob("file graph edges come from deplist", ok, "", "ford/graphs.py")
+
+
 RULES = [
+    RuleSpec("C13.R6", r6_project_graph_roots, "project-wide graph roots; file dependencies use the recursive closure", floor=12),
     RuleSpec("C13.R1", r1_pairing, "forward/inverse adjacency pairing at node creation", floor=30),
     RuleSpec("C13.R2", r2_mirror, "mirror graph classes iterate mirror relations", floor=16),
     RuleSpec("C13.R3", r3_edges, "edge endpoints are nodes of the same hop; edges unconditional", floor=20),
